@@ -551,6 +551,7 @@ class Stats:
         self.violations = []  # (schedule, message)
         self.cap_hit = None
         self.stack = None
+        self.sample = None
         self.wall = 0.0
 
 
@@ -627,6 +628,8 @@ def explore(make, check, timeouts=0, interrupts=0, line_mode=False, preemption_b
             st.pruned += 1
         else:
             st.outcomes[ex.outcome] += 1
+            if st.sample is None or len(ex.trace) > len(st.sample[0]):
+                st.sample = (list(ex.trace), describe(ex.labels), ex.outcome)
             msg = check(ex, ctx)
             if msg:
                 # a failure must reproduce before it is reported
